@@ -1579,6 +1579,10 @@ impl WriteTaskState {
 
         let LaneData { target, response } = response;
         if let Some(remote_id) = target {
+            if !write_tracker.has_remote(remote_id) {
+                trace!(response = ?response, "Discarding response for absent remote {}.", remote_id);
+                return Either::Left(Writes::Zero);
+            }
             trace!(response = ?response, "Routing response to {}.", remote_id);
             links.count_single(id);
             let write = if !links.is_linked(remote_id, id) {
